@@ -65,6 +65,67 @@ def shared_lambda_oracle(ctx):
                     before = after
 
 
+from typing import Iterable  # noqa: E402
+
+
+class _EQ_Trk:
+    def pt(self, scale: int = 7) -> int: ...
+
+
+class _EQ_Jet:
+    def tracks(self) -> Iterable[_EQ_Trk]: ...
+    def pt(self, scale: float = 1.0) -> float: ...
+
+
+class _EQ_Jet2:
+    def tracks(self, kind: str = "all") -> Iterable[_EQ_Trk]: ...
+    def pt(self, scale: float = 2.0, extra: int = 5) -> float: ...
+
+
+class _EQ_Evt:
+    def Jets(self, name: str = "dflt") -> Iterable[_EQ_Jet]: ...
+
+
+def lambda_from_earlier_query_oracle(ctx):
+    """An ast.Lambda object taken OUT OF the finished query of a typed stream (a nested Select / Where lambda that the type
+    follower edited where it stood) and handed to an operator of another stream: the earlier stream's query must not change
+    (wave-10 review of repo fix af4d3c6: the mark that let the nested lambda be followed in place stayed on the node, so it
+    was not copied the second time; repaired by f8437e2)."""
+    import ast
+    from typing import Iterable
+    from func_adl import EventDataset
+
+    Trk, Jet, Jet2, Evt = _EQ_Trk, _EQ_Jet, _EQ_Jet2, _EQ_Evt
+
+    def mk(cls):
+        class T(EventDataset[cls]):  # type: ignore
+            def __init__(self):
+                super().__init__(cls)
+
+            async def execute_result_async(self, a, title=None):
+                return a
+        return T()
+
+    for text in ["lambda e: e.Jets().Select(lambda j: j.tracks())", "lambda e: e.Jets().Select(lambda j: j.pt())",
+                 "lambda e: e.Jets().Where(lambda j: j.pt() > 2)", "lambda e: e.Jets().Select(lambda j: j.tracks().Select(lambda t: t.pt()))"]:
+        for how in ("str", "ast"):
+            first = mk(Evt).Select(text if how == "str" else ast.parse(text, mode="eval").body)
+            before = ast.dump(first.query_ast)
+            nested = [n for n in ast.walk(first.query_ast.args[1].body) if isinstance(n, ast.Lambda)]
+            for lam in nested:
+                for op in ("Select", "Where"):
+                    try:
+                        getattr(mk(Jet2), op)(lam)
+                    except Exception:
+                        pass
+                    ctx.count(f"lambda-from-earlier-query:{text}:{how}:{op}", True, tags=["lambda-from-earlier-query"])
+                    after = ast.dump(first.query_ast)
+                    if after != before:
+                        ctx.violate({"text": text, "how": how, "op": op, "before": ast.unparse(ast.parse(ast.unparse(first.query_ast)))[:0] + before[-240:], "after": after[-240:]},
+                                    "C11: handing a lambda taken out of an earlier stream's query to an operator of another stream changed the earlier stream's query")
+                        before = after
+
+
 def shared_text_oracle(ctx):
     """The same lambda TEXT (and the same Python callable) given to operators on streams of different item types - untyped,
     and two typed datasets whose classes declare different defaults: every stream keeps the query it had when it was made
@@ -131,6 +192,7 @@ def run(ctx):
     streams.run_histories(ctx, ctx.n(150, 4000), ID)
     shared_lambda_oracle(ctx)
     shared_text_oracle(ctx)
+    lambda_from_earlier_query_oracle(ctx)
 
 
 def replay(ctx, case):
